@@ -369,7 +369,10 @@ def task_bounded(I, seed, k):
                 if rnd.random() < 0.5:
                     kw[p] = rnd.choice([val(), [val(), val()]])
             pl = H.make_vcard_data(**kw)
-            probs = [p_ for p_ in P.check_vcard(pl, **kw) if 'line' in p_.lower()]     # the property speaks of content lines only
+            # the property speaks of content lines only: problems of the parser about components / escapes inside a line are not clauses of it
+            import re as _re
+            line_problem = _re.compile(r'raw CR/LF inside|content line|is not the (N|FN) property|not terminated by a line break|BEGIN:VCARD|END:VCARD|VERSION|checker error|^line [0-9]+:|first line|last line|second line')
+            probs = [p_ for p_ in P.check_vcard(pl, **kw) if line_problem.search(p_.split(' in ')[0][:80])]
             report('C16.bounded.vcard_one_content_line_per_value', probs, dict(call='make_vcard_data(**%r)' % kw, payload=pl), dict(fn='replay_payload', builder='vcard', kw=repr(kw)))
         elif which == 3:
             lat, lng = round(rnd.uniform(-90, 90), rnd.randrange(0, 8)), round(rnd.uniform(-180, 180), rnd.randrange(0, 8))
